@@ -24,11 +24,12 @@ static void gen(mvsim_rng *r, long *p, int tier) {
   wl_gen_common(r, &p[Q_NWORKERS], &p[Q_QSIZE], &p[Q_PFIRST], 16);
   if (mvh_chance(r, 400)) p[Q_NWORKERS] = 1;
   p[Q_YIELD_PM] = 300; p[Q_SEED] = (long)(mvsim_rng_next(r) >> 20);
-  p[T_MODE] = mvh_range(r, 0, 2);
+  p[T_MODE] = mvh_range(r, 0, 3);
   p[T_NCALLS] = mvh_range(r, 1, tier ? 8 : 4);
   p[T_NSIB] = mvh_range(r, 0, 3);
   p[T_DURCLASS] = mvh_range(r, 0, 7);
   p[T_HOLD] = mvh_range(r, 0, 12);
+  if (p[T_MODE] == 3) { p[Q_NWORKERS] = 2; p[Q_PFIRST] = 0; p[T_NSIB] = 0; p[T_NCALLS] = 1; if (p[T_DURCLASS] % 8 < 3) p[T_DURCLASS] = 3 + p[T_DURCLASS] % 3; }
 }
 static void *sibling(void *a) {
   while (!sib_stop) { sib_progress++; myth_yield(); mvsim_user_point(); }
@@ -81,6 +82,37 @@ static void do_sleep(long i) {
   if (P[Q_NWORKERS] == 1 && P[T_NSIB] > 0 && mvsim_clock_reads() - r0 >= 3)
     MVH_CHECK(sib_progress > p0, "C20-SLEEP-HOGS", "a sleeping thread polled the clock %llu times on the only worker while a runnable sibling made no progress", (unsigned long long)(mvsim_clock_reads() - r0));
   mvh_counter[mvh_counter_id("sleeps")]++;
+}
+/* mode 3: "lets other runnable threads use the worker": the only other worker is occupied by a thread
+   that never yields, and a runnable thread (the main thread's continuation) sits in that worker's
+   queue while this thread sleeps.  The sleeping thread's worker is the only one that can run it. */
+static volatile int st_b_running, st_sleep_done, st_main_back_during_sleep;
+static volatile uint64_t st_polls;
+static void *st_sleeper(void *a) {
+  while (!st_b_running) mvsim_user_point();      /* never yields: the creator's continuation can only leave by being stolen */
+  uint64_t r0 = mvsim_clock_reads();
+  do_sleep(0);
+  st_polls = mvsim_clock_reads() - r0;
+  st_sleep_done = 1;
+  return a;
+}
+static void *st_blocker(void *a) {
+  st_b_running = 1;
+  while (!st_sleep_done) mvsim_user_point();      /* occupies its worker for the whole sleep */
+  return a;
+}
+static void do_sleep_steal(void) {
+  st_b_running = st_sleep_done = st_main_back_during_sleep = 0; st_polls = 0;
+  int w0 = myth_get_worker_num();
+  myth_thread_t s = myth_create(st_sleeper, 0);   /* child first: the sleeper runs here, we are stolen by the other worker */
+  int w1 = myth_get_worker_num();
+  myth_thread_t b = myth_create(st_blocker, 0);   /* child first: the blocker runs there, our continuation waits in that worker's queue */
+  st_main_back_during_sleep = !st_sleep_done;
+  void *r; myth_join(s, &r); myth_join(b, &r);
+  if (w0 != w1 && st_polls >= 32)
+    MVH_CHECK(st_main_back_during_sleep, "C20-SLEEP-HOGS-WORKER", "a thread slept through %llu clock polls while a runnable thread waited in the queue of the only other (busy) worker: the sleeper's worker ran nothing else",
+              (unsigned long long)st_polls);
+  mvh_counter[mvh_counter_id("sleep_steal_runs")]++;
 }
 static void *holder(void *a) {
   tm_interest++; tm_enter++;
@@ -158,6 +190,7 @@ static void run(const long *p, mvsim_runcfg *cfg, mvsim_runstats *st) {
   uint64_t maxd = 1;
   for (long i = 0; i < p[T_NCALLS]; i++) if (duration(i) > maxd) maxd = duration(i);
   uint64_t div = 5 + wl_mix(p[Q_SEED], 3) % 300;
+  if (p[T_MODE] == 3 && div < 80) div += 80;
   cfg->clk_read_ns = maxd / div + 1;
   cfg->clk_jump_ns = maxd > 1000000000000ULL ? maxd / 2 : maxd * 3 + 1;
   cfg->budget1 += 200000; cfg->budget2 += 2000000;
@@ -167,7 +200,9 @@ static void run(const long *p, mvsim_runcfg *cfg, mvsim_runstats *st) {
   myth_thread_t sib[4];
   for (long i = 0; i < p[T_NSIB]; i++) sib[i] = myth_create(sibling, 0);
   for (long i = 0; i < p[T_NCALLS]; i++) {
-    switch (p[T_MODE]) { case 0: do_sleep(i); break; case 1: do_timedlock(i); break; default: do_timedjoin(i); }
+    int mode = (int)p[T_MODE];
+    if (mode == 3 && !(p[Q_NWORKERS] == 2 && !p[Q_PFIRST] && p[T_NSIB] == 0)) mode = 0;   /* overrides/shrinking broke the set-up */
+    switch (mode) { case 0: do_sleep(i); break; case 1: do_timedlock(i); break; case 3: do_sleep_steal(); break; default: do_timedjoin(i); }
     mvsim_user_point();
   }
   sib_stop = 1;
